@@ -44,6 +44,9 @@ func runC18(c *kernel.Ctx) {
 		mode = "mqtt"
 	}
 	cluster := c.Params["campaign"] != "nocluster"
+	if c.Params["campaign"] == "" && t.Chance(1, 4) {
+		cluster = false // the 'cluster' section is optional in the configuration
+	}
 	b := world.StartBroker(c, world.BrokerOpts{Lic: lic, Matcher: mode, Cluster: cluster, NodeName: "00:00:00:00:00:01", Advertise: "10.0.0.1:4000", StateDir: ":memory:"})
 	defer b.Close()
 	c.Logf("mode=%q cluster=%v lic=v%d", mode, cluster, lic.Ver)
